@@ -398,7 +398,9 @@ def additive_object_parameter_probe(ctx):
             op = mk(Mod(a, c))
             try:
                 out = {"mv": lambda: op.mv(w), "rmv": lambda: op.rmv(w), "fullmatrix": lambda: op.fullmatrix(), "mm": lambda: op.mm(torch.stack([w, 2 * w], dim=-1))}[prod]()
-                ga, gc_ = torch.autograd.grad(out.sum(), (a, c), allow_unused=True)
+                # (no allow_unused: the products stay connected to every parameter of the object, so the derivative w.r.t. the
+                # additive one is the zero tensor, exactly as for an explicit argument that does not influence the Jacobian)
+                ga, gc_ = torch.autograd.grad((out ** 2).sum(), (a, c))
             except Exception as e:
                 ctx.fail("oracle", "%s:additive-object-parameter:%s:exception" % (name, prod), {"operator": name, "product": prod}, repr(e)[:200],
                          "zero (or absent) derivative w.r.t. the additive parameter, the true one w.r.t. the other")
